@@ -36,6 +36,10 @@ CLAIMED = {
          PBT + ": adversarial parameter values for every operation; oracle = the harness's own strict XML 1.0 parser + value recovery at the protocol-defined location + delimiter count",
          "Every text parameter of every operation (tokens, log messages, instance names, XPath, URLs, text/JSON/set configuration) is generated from XML metacharacters, quotes, the delimiter and its prefixes, CDATA/comment openers, entity look-alikes, non-ASCII, empty, up to 4 KiB; fragments are generated well-formed trees. The captured bytes must be one well-formed document plus exactly one delimiter and every value must be recovered unchanged. Every request the fake Junos receives in other checks is parsed by the same strict parser.",
          "Well-formed, not namespace-valid. Values are XML Chars without CR (attribute values also without TAB/LF)."),
+ "C11": ("exploration", "DESIGN.md section 3 C11",
+         PBT + ": generated IRR databases served by a fake IRRd over loopback TCP and generated filter expressions; oracle = denotational RPSL evaluator written for the harness, compared exactly by one representative prefix per class of the partition induced by all prefixes and lengths involved",
+         "The real RpslEvaluator (public API) evaluates generated expressions (AND/OR/NOT, literals, every range operator on every atom kind, as-sets with nesting/cycles/unknown members, route-sets, filter-sets) against a generated database served with protocol variants (empty as C or D, segmented responses). The result is compared for exact set equality with an independent evaluator; the query log must show both address families for every expanded AS. One known finding (route-set members with range operators dropped) is attributed exactly by re-running the oracle without those members.",
+         "IRR behaviour inside the IRRd protocol. NOT is generated over literal sets of short prefixes only (the prefix-set dependency needs time exponential in the prefix length for a complement). The rpsl and generic-ip crates are dependencies, their parser is used to hand expressions to the library."),
  "C12": ("exploration", "DESIGN.md section 3 C12",
          PBT + ": generated server hellos x both orders of the hello exchange; oracle = the establishment predicate evaluated against the capabilities the client itself put on the wire",
          "Hello matrix over base versions, capability subsets, unknown URIs, session-id forms (valid, 2^32-1, leading zeros, 0, 2^32, negative, empty, non-numeric, missing, duplicated), capabilities element once/missing/twice, child order, prefix/default namespace, malformed documents, and both orders of the exchange (send gate). Established iff the property's predicate; version, session-id and capability set compared. One known finding listed.",
@@ -52,6 +56,10 @@ CLAIMED = {
          PBT + ": generated running configurations rendered raw (attribute order, duplicated xmlns:jcmd, jcmd prefix, comment decoration, body shape under generator control); oracle = independent selection written from the property text, expressions compared by AST",
          "0..8 generated policy statements per configuration through the agent's real session and candidate reader; the selected (name, expression) pairs must equal an independent selection (active, annotated with a parseable expression, body exactly a default reject); duplicate selected names must be rejected.",
          "'Inactive' = jcmd:active=\"false\"; decorations are the /* */ family; expressions compared through the rpsl parser (a dependency, not code under test)."),
+ "C17": ("exploration", "DESIGN.md section 3 C17",
+         PBT + ": metamorphic - a generated sequence of expressions on one evaluator vs each expression on a fresh evaluator, against a fake IRRd with injected D/E/F answers",
+         "Sequences of 2..7 expressions evaluated on one RpslEvaluator/connection against a database in which generated keys always answer with an error and filter-sets are served from two sources (early stop of the resolver); each result must equal the result on a fresh connection (both fail, or equal range sets), so responses are never attributed to the wrong query and the evaluator stays usable after failures.",
+         "Results are functions of (database, expression) because error answers are keyed, not positional."),
  "C18": ("exploration", "DESIGN.md section 3 C18",
          PBT + ": C05's schedule-owning executor plus drop actions at generated suspension points; oracle = survivors resolve with their own tag at quiescence and a further request completes",
          "C05's worlds with 1..2 drops of a waiter task (never polled / polled / polled while a send is pending and the request map is locked). Every surviving request must still resolve with its own reply and the session must stay usable. The confirmed defect (reply lost when the reader is dropped at the request-map lock) was repaired; its minimal schedule is a regression input.",
